@@ -2078,6 +2078,16 @@ class Evaluator:
                 if len(args) == 2 and isinstance(cur, dict) and isinstance(args[0], dict): args = [{**args[0], **args[1]}]
             if attr == 'update' and len(args) == 1 and isinstance(args[0], (list, tuple)) and all(isinstance(x_, (list, tuple)) and len(x_) == 2 and isinstance(x_[0], (str, int)) for x_ in args[0]):
                 args = [{x_[0]: x_[1] for x_ in args[0]}]          # d.update(pairs)
+            if isinstance(cur, Opq) and cur.k and cur.k[0] == 'set' and not any(isinstance(x_, (Opq, Comp, Cond)) for x_ in cur.k[1:]) and len(args) == 1:
+                # a set written out member by member: add / update with concrete members keeps it written out
+                new_ = [args[0]] if attr == 'add' else (list(args[0]) if attr == 'update' and isinstance(args[0], (list, tuple)) else
+                                                        (list(args[0].k[1:]) if attr == 'update' and isinstance(args[0], Opq) and args[0].k and args[0].k[0] == 'set' else
+                                                         ([] if attr == 'update' and isinstance(args[0], dict) and not args[0] else None)))
+                if new_ is not None and not any(isinstance(x_, (Comp, Cond)) or (isinstance(x_, Opq)) for x_ in new_):
+                    have_ = {repr(tkey(x_)) for x_ in cur.k[1:]}; members = list(cur.k[1:])
+                    for x_ in new_:
+                        if repr(tkey(x_)) not in have_: have_.add(repr(tkey(x_))); members.append(x_)
+                    s.rebind(nm, Opq('set', *members), env); return
             if attr == 'append' and isinstance(cur, list) and len(args) == 1:
                 s.rebind(nm, cur + [args[0]], env); return
             if attr == 'update' and isinstance(cur, dict) and len(args) == 1 and isinstance(args[0], dict):
